@@ -578,9 +578,7 @@ class PendingAssign(PendingNode[Assign | AnnAssign]):
         return self.nsp.get_assign(target.id, value)
 
     def assign_subscript(self, target: Subscript, value: expr):
-        _slice = expr_transf(self.nsp, target.slice)
-        if isinstance(_slice, Slice):
-            _slice = utils.convert_slice(_slice)
+        _slice = utils.convert_index(expr_transf(self.nsp, target.slice))
 
         return Call(
             func=Attribute(
@@ -754,9 +752,7 @@ class PendingAugAssign(PendingNode[AugAssign]):
             target = self.node.target
             subscript_parent = expr_transf(self.nsp, target.value)
 
-            slice_expr = expr_transf(self.nsp, target.slice)
-            if isinstance(slice_expr, Slice):
-                slice_expr = utils.convert_slice(slice_expr)
+            slice_expr = utils.convert_index(expr_transf(self.nsp, target.slice))
 
             # save slice expr to a tmp
             return_list.append(
